@@ -18,7 +18,7 @@ pub const SPEC: PropSpec = PropSpec {
     required: &["docs_with_start_tag", "results.ok", "results.err", "entry.from_str", "entry.from_reader", "mutation.doctype_between_texts", "mutation.insert", "mutation.delete", "mutation.duplicate", "mutation.splice", "mutation.truncate", "mutation.soup", "mutation.xsi_nil_attr", "mutation.attr_added", "targets_seen_all"],
     run,
     replay,
-    thorough_layers: &[("plain", 100), ("asan", 20), ("miri", 1)],
+    thorough_layers: &[("plain", 100), ("asan", 20), ("miri", 1), ("fuzz", 60)],
     quick_layers: &[],
     post: Some(post),
 };
@@ -343,6 +343,9 @@ fn run(ctx: &mut Ctx) {
 }
 
 fn replay(case: &Value, _ctx: &mut Ctx) -> Option<String> {
+    if let Some(h) = case.get("fuzz").and_then(|v| v.as_str()) {
+        return fuzz_entry(&crate::ctx::unhex(h)).err();
+    }
     let all = all_targets();
     let ops = all.iter().find(|o| o.name == case["target"].as_str().unwrap_or(""))?;
     let doc = case["document"].as_str().unwrap_or("");
@@ -351,4 +354,24 @@ fn replay(case: &Value, _ctx: &mut Ctx) -> Option<String> {
         Ok(_) => None,
         Err(p) => Some(format!("deserializing into {} panicked: {}", ops.name, p)),
     }
+}
+
+/// libFuzzer entry: byte 0 = target type, byte 1 = entry point / piece size, rest = document (must be UTF-8)
+pub fn fuzz_entry(data: &[u8]) -> Result<(), String> {
+    if data.len() < 2 {
+        return Ok(());
+    }
+    let doc = match std::str::from_utf8(&data[2..]) {
+        Ok(d) => d,
+        Err(_) => return Ok(()),
+    };
+    thread_local! { static ALL: Vec<TypeOps> = all_targets(); }
+    ALL.with(|all| {
+        let ops = &all[data[0] as usize % all.len()];
+        let reader = data[1] & 1 == 1;
+        match exec(ops, doc, reader, (data[1] >> 1) as usize % 4) {
+            Ok(_) => Ok(()),
+            Err(p) => Err(format!("deserializing into {} panicked: {}", ops.name, p)),
+        }
+    })
 }
